@@ -664,7 +664,10 @@ class PteraTransformer(NodeTransformer):
             x: int = _ptera_interact('x', int)
         """
         return self.make_interaction(
-            node.target, self._ann(node.annotation), node.value, orig=node
+            node.target,
+            self._ann(node.annotation),
+            node.value and self.visit(node.value),
+            orig=node,
         )
 
     def visit_Assign(self, node):
@@ -700,6 +703,10 @@ class PteraTransformer(NodeTransformer):
                     )
                 )
             return accum
+
+        # The value may itself contain bindings and suspension points
+        # (x = (y := 1) + 1, r = yield v)
+        node.value = self.visit(node.value)
 
         targets = node.targets
         if len(targets) > 1:
